@@ -91,13 +91,64 @@ func refEscapeBody(Q []byte, brk bool) []byte {
 // compare modulo the elisions the buffer performs.
 func normEnv(b []byte) []byte { return mergeAdj(b) }
 
+// payload templates: 's' start marker, 'e' end marker, 'n' line feed,
+// 'x' cross, '.' one fully symbolic byte, 'E' 0xE2, '8' 0x80
+var payloadTemplates = []string{
+	"",        // 0: all symbolic (n bytes)
+	"..sn.",   // 1: marker right before a line feed, two bytes in front
+	"..en.",   // 2
+	"ns.",     // 3: line feed first, then marker
+	".ss.",    // 4: adjacent markers
+	".se.",    // 5
+	"E.s",     // 6: stray lead byte before a marker
+	"E8.e.",   // 7
+	"s.n.e",   // 8
+	"..n.E",   // 9: truncated tail after a split
+	"n.n",     // 10
+	".sn",     // 11: marker + LF at the very end
+	"..s..n",  // 12
+	"E.n.",    // 13: LF within two bytes of a stray lead byte
+	"E8n.",    // 14
+	".nns.",   // 15
+}
+
+func templatePayload(t string) []byte {
+	var q []byte
+	for i := 0; i < len(t); i++ {
+		switch t[i] {
+		case 's':
+			q = append(q, mS...)
+		case 'e':
+			q = append(q, mE...)
+		case 'n':
+			q = append(q, '\n')
+		case 'x':
+			q = append(q, mX...)
+		case 'E':
+			q = append(q, 0xE2)
+		case '8':
+			q = append(q, 0x80)
+		default:
+			q = append(q, vByte())
+		}
+	}
+	return q
+}
+
 // H_escape: C10/C01/C03 on the escape scanner through the public
-// ManualBuffer.  p = [fragment shape, n payload bytes, mode(0 unsafe,1 safe-escaped), split]
+// ManualBuffer.  p = [fragment shape, n payload bytes, mode(0 unsafe,1 safe-escaped), split, template]
 // split = -1: one Write; otherwise Write(Q[:split]); Write(Q[split:]).
+// template > 0: the payload follows payloadTemplates[template] (n ignored).
 func H_escape(p []int) {
 	shape, n, mode, split := p[0], p[1], p[2], p[3]
 	P := vFragment(shape)
-	Q := vBytes(n)
+	var Q []byte
+	if len(p) > 4 && p[4] > 0 {
+		Q = templatePayload(payloadTemplates[p[4]])
+		n = len(Q)
+	} else {
+		Q = vBytes(n)
+	}
 	Q0 := append([]byte{}, Q...)
 	var b redact.ManualBuffer
 	b.SetMode(modeRaw)
@@ -155,3 +206,47 @@ func redactMode(m int) buffer.OutputMode { return buffer.OutputMode(m) }
 func init() {
 	Harnesses["H_escape"] = H_escape
 }
+
+// H_escbytes: redact.EscapeBytes(b) (C10's second sentence; also C01/C03).
+// p = [n, template]
+func H_escbytes(p []int) {
+	var b []byte
+	if p[1] > 0 {
+		b = templatePayload(payloadTemplates[p[1]])
+	} else {
+		b = vBytes(p[0])
+	}
+	b0 := append([]byte{}, b...)
+	out := []byte(redact.EscapeBytes(b))
+	vObserve("out", out)
+	wf, ls := wfls(out)
+	vAssert(wf, "C01/wf-escapebytes")
+	vAssert(ls, "C03/lineSafe-escapebytes")
+	vAssert(wf, "C10/escapebytes-wf")
+	vAssert(ls, "C10/escapebytes-lineSafe")
+	vAssert(bytesEq(b, b0), "C10/payload-unmodified")
+	if !wf {
+		return
+	}
+	// stripped form = escaped text (+ one '?' after a truncated tail)
+	sg, want := strip(out), esc(b0)
+	vAssert(hasPrefix(sg, want), "C10/escapebytes-strip")
+	extra := len(sg) - len(want)
+	vAssert(extra == 0 || (extra == 1 && sg[len(sg)-1] == '?'), "C10/escapebytes-strip-tail")
+	if len(b0) > 0 && validUTF8(b0) {
+		vAssert(extra == 0, "C10/escapebytes-no-tail-on-valid")
+	}
+	// redacted form: only redacted markers and the line feeds of b
+	r := redactRef(out)
+	vAssert(bytesEq(delEnv(r), nlOf(b0)), "C10/escapebytes-redacted-only-markers-and-lf")
+	vAssert(bytesEq(delEnv(out), nlOf(b0)), "C03/escapebytes-lf-outside")
+	// per-line well-formedness (C03, second sentence)
+	vAssert(bytesEq(redactRef(out), redactLines(out)), "C03/escapebytes-per-line")
+	// idempotence of the escaped text
+	e1 := redact.EscapeMarkers(append([]byte{}, b0...))
+	vAssert(bytesEq(redact.EscapeMarkers(append([]byte{}, e1...)), e1), "C10/escape-idempotent")
+	vCover(len(b0) > 0 && b0[len(b0)-1] == '\n', "lf-last")
+	vCover(len(b0) > 0 && b0[0] == '\n', "lf-first")
+}
+
+func init() { Harnesses["H_escbytes"] = H_escbytes }
